@@ -16,6 +16,7 @@
     Every MX of the case is one connection attempt (one address per MX).
     Switches that say which code exists come from Gen/GenStarttls.v:
     [ST_PURGES] (lib/netio.c drops input buffered under another TLS state),
+    [ST_LOOPLONG_PASSES_FATAL] (loop_long() reads with the caller's fatal, not with 1),
     [ST_QUITMSG_RESETS_ROUTE], [ST_QIN_FREES_SSL], [ST_PINNED_NEEDS_TLS]. *)
 From Qv Require Import Common.Bytes Gen.GenNetio Gen.GenQremote Gen.GenStarttls Model.NetRead.
 Local Open Scope bool_scope.
@@ -43,8 +44,14 @@ Inductive ritem :=
 | RInval                      (* -1, errno EINVAL *)
 | R2big                       (* -1, errno E2BIG *)
 | RReset                      (* -1, errno ECONNRESET: read() = 0 resp. SSL_read: connection closed *)
-| RDie                        (* loop_long() reads with fatal = 1: dieerror(ECONNRESET), no return *)
+| RDie                        (* loop_long() reading with fatal = 1: dieerror(ECONNRESET), no return (see [long_end]) *)
 | RStuck.
+
+(** the stream ends while loop_long() skips an over-long line.  Qremote reads with net_read(0): when
+    loop_long() passes the caller's [fatal] on to readinput() (Gen: [ST_LOOPLONG_PASSES_FATAL]) the
+    failed read leaves linenlen = 0 and net_read() returns -1 with errno ECONNRESET like any other end of
+    the stream; with [fatal] hard-wired to 1 readinput() calls dieerror() and the process exits. *)
+Definition long_end : ritem := if ST_LOOPLONG_PASSES_FATAL then RReset else RDie.
 
 (** as [NetRead.read_loop], telling the two ways apart in which the stream can end *)
 Fixpoint read_loop2 (fuel : nat) (buf : bytes) (e : env) : ritem * rstate :=
@@ -68,14 +75,14 @@ Fixpoint read_loop2 (fuel : nat) (buf : bytes) (e : env) : ritem * rstate :=
               else
                 match loop_long (S (length (rest e'))) e' false with
                 | (Some i, e'') => (R2big, {| inn := i; en := e'' |})
-                | (None, e'') => (RDie, {| inn := []; en := e'' |})
+                | (None, e'') => (long_end, {| inn := []; en := e'' |})
                 end
           | Some p' =>
               if valid then (RLine (firstn (p' - 2) buf'), {| inn := skipn p' buf'; en := e' |})
               else if Nat.eqb p' (LINEINBUF - 1) && N.eqb (nth (p' - 1) buf' 0%N) CR then
                 match loop_long (S (length (rest e'))) e' true with
                 | (Some i, e'') => (R2big, {| inn := i; en := e'' |})
-                | (None, e'') => (RDie, {| inn := []; en := e'' |})
+                | (None, e'') => (long_end, {| inn := []; en := e'' |})
                 end
               else (RInval, {| inn := skipn p' buf'; en := e' |})
           end
